@@ -135,6 +135,7 @@ func (p *parser) parse(dst []node, root *node, offset int, t *target) ([]node, i
 		if len(ctl) == 0 {
 			continue
 		}
+		ctl = bytes.TrimRight(ctl, " \t")
 		r := node{typ: typeOperator}
 		if dst, offset, up, err = p.processCtl(dst, root, &r, ctl, offset); err != nil {
 			return dst, offset, err
